@@ -276,6 +276,14 @@ def gen_cases(ctx):
                         h = hh if sf == (1, 1) else next(x for x in range(hh * sf[1] // sf[0] - 2, 400) if scaled(x, sf) == hh)
                         cases.append("pp w=%d h=%d ss=%d src=ycc quant=2 dither=%d cs=0 max=%d num=%d den=%d fast=%d ncol=%d" % (
                             rng.range(1, 24), h, ss, rng.below(3), mx, sf[0], sf[1], rng.below(2), rng.choice([16, 256])))
+        # replicating upsamplers (int_upsample with h_expand / v_expand 1..4, h2v1/h2v2 plain, h1v2 fancy): luma sampling factors
+        # hs x vs set through the libjpeg compression API (4x2 = 4:1:0, 3x1, 1x3, 2x4, ...), fancy and plain, widths 1..5 and larger
+        for hs, vs in ((4, 2), (3, 1), (1, 3), (2, 4), (3, 2), (4, 1), (1, 4), (2, 3), (1, 2), (2, 1), (2, 2)):
+            for fast in (0, 1):
+                for w in (1, 2, 3, 4, 5, rng.range(6, 70)):
+                    sf = rng.choice(SF) if rng.chance(1, 3) else (1, 1)
+                    cases.append("pp w=%d h=%d ss=0 src=ycc quant=%d dither=0 cs=%d max=%d num=%d den=%d fast=%d hs=%d vs=%d" % (
+                        w, rng.choice([5, 9, 11, 17]), 2 if rng.chance(1, 6) else 0, rng.choice([0, 0, 3]) , rng.choice([1, 2, 3, 5]), sf[0], sf[1], fast, hs, vs))
         # merged 4:2:0 upsampling (do_fancy_upsampling = 0) x jpeg_crop_scanline x jpeg_skip_scanlines x max_lines: spare-row
         # deliveries (max_lines 1, or an odd number of rows skipped) into exact-size rows, RGB565 and the other colour spaces
         for cs in (1, 0, 2):
